@@ -669,7 +669,7 @@ impl CodegenContext {
                                         name,
                                         val
                                     );
-                                    opts.initial_pc = val.into()
+                                    opts.initial_pc = extractor.check_address("start", val)?.into()
                                 }
                                 Ok(None) => {
                                     log::trace!(
@@ -692,7 +692,10 @@ impl CodegenContext {
                             }
                             opts.bank = extractor.try_get_identifier(self, "bank")?;
                             match extractor.try_get_i64(self, "pc")? {
-                                Some(target) => opts.target_address = target.into(),
+                                Some(target) => {
+                                    opts.target_address =
+                                        extractor.check_address("pc", target)?.into()
+                                }
                                 None => opts.target_address = opts.initial_pc,
                             }
 
@@ -945,7 +948,7 @@ impl CodegenContext {
                                 .unwrap_or_else(|| target_pc.into())
                                 + 2)
                             .as_i64();
-                            let mut offset = target_pc - cur_pc;
+                            let mut offset = target_pc.wrapping_sub(cur_pc);
                             if (-128..=127).contains(&offset) {
                                 if offset < 0 {
                                     offset += 256;
@@ -1110,7 +1113,25 @@ impl CodegenContext {
             }
             Token::ProgramCounterDefinition { value, .. } => {
                 if let Some(pc) = self.evaluate_expression_as_i64(value, true)? {
+                    if !(0..=0x10000).contains(&pc) {
+                        return Err(Diagnostic::error()
+                            .with_message(format!(
+                                "the program counter must lie between 0 and $10000, not {}",
+                                pc
+                            ))
+                            .with_labels(vec![value.span.to_label()])
+                            .into());
+                    }
                     if let Some(seg) = self.try_current_segment_mut() {
+                        if pc + seg.target_offset() < 0 {
+                            return Err(Diagnostic::error()
+                                .with_message(format!(
+                                    "the program counter cannot be set to {}: its relocated address would be negative",
+                                    pc
+                                ))
+                                .with_labels(vec![value.span.to_label()])
+                                .into());
+                        }
                         seg.set_pc(pc);
                     }
                 }
